@@ -33,6 +33,7 @@ func init() {
 			"leg query: one case per query; per batch one long chain (sections of 2048/2056/4096 blocks, one or two of them: 2300-4400 blocks, sparse log traffic, dense within 8 blocks of section edges) and two short chains (263-650 blocks), on three fork schedules, built by core.GenerateChain with transactions into 4 logger contracts (LOG0-4), a 5-log burst contract, a relay (inner call + own log + inner call, also with a rolled-back inner log), a log-then-INVALID contract, the shared nested-call library (CALL/CALLCODE/DELEGATECALL/STATICCALL into loggers) and out-of-gas logs, topics from a pool of 7 (zero hash, all-ones, padded address, leading zeros); " +
 			"imported into a real BlockChain with the real aqua.NewBloomIndexer at section sizes 2048/2056/4096 and 8/16/24/32/64 (thorough +40/128; while Generator.Bitset refuses bit numbers >= section size these short-section chains record that defect and run with an index that stays empty) and queried at 3 import cuts (0 sections, one block short of a confirmation, all the 256-confirmation rule allows), after a shallow reorg and (every long / every 4th short chain) after a reorg forking below the indexed boundary; thorough adds leg service: a full in-process node (node.New + aqua.New, sections of 4096, 1 and 2 indexed sections) queried through its AquaApiBackend and the RPC method aqua_getLogs; " +
 			"per state ~30 forced templates (open ends, begin>end, beyond head, +-2 around the indexed boundary, section edges, criteria derived from real logs: exact topics, one position too long, swapped positions, wildcards, alternatives with never-emitted values, address lists) plus 40 (thorough 80) PRNG queries, each through Filter.Logs, PublicFilterAPI.GetLogs, its JSON criteria decoder, or NewFilter+GetFilterLogs; retrieval served by 1-3 Multiplex threads, batch 1/2/16, optionally withholding the first delivery of every bit vector; " +
+			"plus per batch 1 (thorough 6) chain with sections of 32/64/128 in state deep_reorg_mid_section: a database wrapper holds the indexer's read of the canonical hash of a chosen block inside processSection while a heavier branch forking below it is imported, both orders of reorg-event handling and read resumption, then spare head blocks, index check and queries incl. forced ones for branch logs in the rewritten span; " +
 			"non-trivial = query with a non-empty result, distinct by (config, resolved range, criteria, result size, end block hash). " +
 			"leg matcher: PRNG blooms (item density 1/2..1/100, 0-300 noise bits) in 1-6 sections of 8..4096 blocks, vectors from the real Generator or a reference transposition, filters of 0-4 groups x 0-3 clauses incl. nil clauses and never-occurring items, 3 ranges per matcher (reused), direct or Multiplex retrieval with batch 1-16, 1-4 threads, optional withheld deliveries; non-trivial = session that selects a proper non-empty subset.",
 		Legs: func(tier string) []fw.Leg {
@@ -63,7 +64,7 @@ func init() {
 				"criteria_with_wildcard_position": 300, "criteria_with_alternatives": 300, "criteria_with_address_list": 300,
 				"block_passes_bloom_but_no_log_matches": 100, "log_excluded_only_by_criteria_length": 100, "log_excluded_only_by_topic_position": 100,
 				"state_no_section_indexed": 30, "state_sections_indexed": 30, "index_sections_verified": 16,
-				"reorg_shallow_adopted": 40, "reorg_deep_invalidated_sections": 14,
+				"reorg_shallow_adopted": 40, "reorg_deep_invalidated_sections": 14, "reorg_landed_mid_section": 8,
 				"bit_vectors_served": 1000, "bit_vectors_withheld_then_redelivered": 100,
 				// (c)
 				"matcher_sessions": 1000, "matcher_sessions_selective": 200, "generator_sections_compared": 300,
